@@ -201,12 +201,21 @@ impl Broker {
 
             let ev = match self.recv.next().await {
                 Some(ev) => ev,
+                #[cfg(feature = "verif-hooks")]
+                None => {
+                    crate::verif::emit(crate::verif::Record::Stop);
+                    return;
+                }
+                #[cfg(not(feature = "verif-hooks"))]
                 None => return,
             };
 
             self.handle_event(&mut state, ev);
             self.process_loop_result(&mut state);
         }
+
+        #[cfg(feature = "verif-hooks")]
+        crate::verif::emit(crate::verif::Record::Stop);
 
         debug_assert!(!state.has_work_left());
         debug_assert!(self.conns.is_empty());
@@ -218,10 +227,21 @@ impl Broker {
     }
 
     fn handle_event(&mut self, state: &mut State, ev: ConnectionEvent) {
+        #[cfg(feature = "verif-hooks")]
+        crate::verif::emit_with(|| Self::verif_event(&ev));
+
         match ev {
             ConnectionEvent::NewConnection(id, version, sender) => {
+                #[cfg(feature = "verif-hooks")]
+                let verif_id = id.clone();
+
                 let dup = self.conns.insert(id, ConnectionState::new(version, sender));
                 debug_assert!(dup.is_none());
+
+                #[cfg(feature = "verif-hooks")]
+                if let Some(conn) = self.conns.get_mut(&verif_id) {
+                    conn.verif_set_id(verif_id.verif_id());
+                }
 
                 #[cfg(feature = "statistics")]
                 {
@@ -275,11 +295,28 @@ impl Broker {
             // objects and services, which have previously been declared destroyed.
 
             if let Some((conn_id, send_shutdown)) = state.pop_remove_conn() {
+                #[cfg(feature = "verif-hooks")]
+                crate::verif::emit_with(|| {
+                    crate::verif::Record::Work(crate::verif::Work::RemoveConn {
+                        conn: conn_id.verif_id(),
+                        send_shutdown,
+                    })
+                });
+
                 self.shutdown_connection(state, &conn_id, send_shutdown);
                 continue;
             }
 
             if let Some((conn_id, service_cookie, event)) = state.pop_unsubscribe_event() {
+                #[cfg(feature = "verif-hooks")]
+                crate::verif::emit_with(|| {
+                    crate::verif::Record::Work(crate::verif::Work::UnsubscribeEvent {
+                        conn: conn_id.verif_id(),
+                        service: service_cookie,
+                        event,
+                    })
+                });
+
                 let Some(conn) = self.conns.get(&conn_id) else {
                     continue;
                 };
@@ -297,6 +334,14 @@ impl Broker {
             }
 
             if let Some((conn_id, service_cookie)) = state.pop_unsubscribe_all_events() {
+                #[cfg(feature = "verif-hooks")]
+                crate::verif::emit_with(|| {
+                    crate::verif::Record::Work(crate::verif::Work::UnsubscribeAllEvents {
+                        conn: conn_id.verif_id(),
+                        service: service_cookie,
+                    })
+                });
+
                 let Some(conn) = self.conns.get(&conn_id) else {
                     continue;
                 };
@@ -314,6 +359,14 @@ impl Broker {
             }
 
             if let Some((conn_id, service_cookie)) = state.pop_services_destroyed() {
+                #[cfg(feature = "verif-hooks")]
+                crate::verif::emit_with(|| {
+                    crate::verif::Record::Work(crate::verif::Work::ServiceDestroyed {
+                        conn: conn_id.verif_id(),
+                        service: service_cookie,
+                    })
+                });
+
                 let Some(conn) = self.conns.get(&conn_id) else {
                     continue;
                 };
@@ -326,6 +379,15 @@ impl Broker {
             }
 
             if let Some((serial, conn_id, result)) = state.pop_remove_function_call() {
+                #[cfg(feature = "verif-hooks")]
+                crate::verif::emit_with(|| {
+                    crate::verif::Record::Work(crate::verif::Work::RemoveFunctionCall {
+                        serial,
+                        conn: conn_id.verif_id(),
+                        result: result.clone(),
+                    })
+                });
+
                 let Some(conn) = self.conns.get_mut(&conn_id) else {
                     continue;
                 };
@@ -340,32 +402,168 @@ impl Broker {
             }
 
             if let Some(object) = state.pop_create_object() {
+                #[cfg(feature = "verif-hooks")]
+                crate::verif::emit(crate::verif::Record::Work(
+                    crate::verif::Work::CreateObject(object),
+                ));
+
                 self.emit_bus_event(state, BusEvent::ObjectCreated(object));
                 continue;
             }
 
             if let Some(service) = state.pop_create_service() {
+                #[cfg(feature = "verif-hooks")]
+                crate::verif::emit(crate::verif::Record::Work(
+                    crate::verif::Work::CreateService(service),
+                ));
+
                 self.emit_bus_event(state, BusEvent::ServiceCreated(service));
                 continue;
             }
 
             if let Some(service) = state.pop_destroy_service() {
+                #[cfg(feature = "verif-hooks")]
+                crate::verif::emit(crate::verif::Record::Work(
+                    crate::verif::Work::DestroyService(service),
+                ));
+
                 self.emit_bus_event(state, BusEvent::ServiceDestroyed(service));
                 continue;
             }
 
             if let Some(object) = state.pop_destroy_object() {
+                #[cfg(feature = "verif-hooks")]
+                crate::verif::emit(crate::verif::Record::Work(
+                    crate::verif::Work::DestroyObject(object),
+                ));
+
                 self.emit_bus_event(state, BusEvent::ObjectDestroyed(object));
                 continue;
             }
 
             if let Some((callee_serial, callee_id)) = state.pop_abort_function_call() {
+                #[cfg(feature = "verif-hooks")]
+                crate::verif::emit_with(|| {
+                    crate::verif::Record::Work(crate::verif::Work::AbortFunctionCall {
+                        serial: callee_serial,
+                        callee: callee_id.verif_id(),
+                    })
+                });
+
                 self.abort_call(state, callee_serial, callee_id);
                 continue;
             }
 
             debug_assert!(!state.has_work_left());
             break;
+        }
+
+        #[cfg(feature = "verif-hooks")]
+        crate::verif::emit_with(|| crate::verif::Record::Idle(Box::new(self.verif_dump(state))));
+    }
+
+    #[cfg(feature = "verif-hooks")]
+    fn verif_event(ev: &ConnectionEvent) -> crate::verif::Record {
+        use crate::verif::Record;
+
+        match ev {
+            ConnectionEvent::NewConnection(id, version, _) => Record::NewConn {
+                conn: id.verif_id(),
+                version: *version,
+            },
+
+            ConnectionEvent::ConnectionShutdown(id) => Record::ConnShutdown {
+                conn: id.verif_id(),
+            },
+
+            ConnectionEvent::Message(id, msg) => Record::Msg {
+                conn: id.verif_id(),
+                msg: msg.clone(),
+            },
+
+            ConnectionEvent::ShutdownBroker => Record::ShutdownBroker,
+            ConnectionEvent::ShutdownIdleBroker => Record::ShutdownIdle,
+
+            ConnectionEvent::ShutdownConnection(id) => Record::ShutdownConn {
+                conn: id.verif_id(),
+            },
+
+            ConnectionEvent::TakeStatistics(_) => Record::Other,
+        }
+    }
+
+    #[cfg(feature = "verif-hooks")]
+    fn verif_dump(&self, state: &State) -> crate::verif::Dump {
+        use crate::verif::{Dump, DumpCall, DumpChannel, DumpServiceIndex};
+
+        Dump {
+            conns: self.conns.values().map(ConnectionState::verif_dump).collect(),
+            obj_uuids: self.obj_uuids.iter().map(|(&c, &u)| (c, u)).collect(),
+            objs: self
+                .objs
+                .iter()
+                .map(|(&uuid, obj)| obj.verif_dump(uuid))
+                .collect(),
+            svc_uuids: self
+                .svc_uuids
+                .iter()
+                .map(|(&cookie, &(object, uuid, info))| DumpServiceIndex {
+                    cookie,
+                    object,
+                    uuid,
+                    version: info.version(),
+                    type_id: info.type_id(),
+                    subscribe_all: info.subscribe_all(),
+                })
+                .collect(),
+            svcs: self
+                .svcs
+                .iter()
+                .map(|(&(obj, svc), service)| service.verif_dump(obj, svc))
+                .collect(),
+            calls: self
+                .function_calls
+                .verif_iter()
+                .map(|(serial, call)| DumpCall {
+                    serial,
+                    caller_serial: call.caller_serial,
+                    caller: call.caller_conn_id.verif_id(),
+                    callee_obj: call.callee_obj,
+                    callee_svc: call.callee_svc,
+                    aborted: call.aborted,
+                })
+                .collect(),
+            channels: self
+                .channels
+                .iter()
+                .map(|(&cookie, channel)| {
+                    let (sender, receiver) = channel.verif_dump();
+                    DumpChannel {
+                        cookie,
+                        sender,
+                        receiver,
+                    }
+                })
+                .collect(),
+            bus_listeners: self
+                .bus_listeners
+                .iter()
+                .map(|(&cookie, bl)| bl.verif_dump(cookie))
+                .collect(),
+            introspection: self.introspection.verif_dump(),
+            query_introspection: self
+                .query_introspection
+                .verif_iter()
+                .map(|(serial, &type_id)| (serial, type_id))
+                .collect(),
+            shutdown_now: state.shutdown_now(),
+            shutdown_idle: state.shutdown_idle(),
+            num_connections: self.statistics.num_connections,
+            num_objects: self.statistics.num_objects,
+            num_services: self.statistics.num_services,
+            num_channels: self.statistics.num_channels,
+            num_bus_listeners: self.statistics.num_bus_listeners,
+            num_introspections: self.statistics.num_introspections,
         }
     }
 
